@@ -236,18 +236,20 @@ PROPS['C17'] = dict(
 # ------------------------------------------------------------------------------------------------ C01
 def _c01(tier, seed):
     if tier == 'quick':
-        return J('c01.cpp', 'optim', 'spqlios-fma', n=12) + J('c01.cpp', 'optim', 'fftw', n=2, args=['kinds=2']) + J('c01.cpp', 'debug', 'nayuki-portable', n=4, args=['kinds=3', 'zonly=1'])
+        return J('c01.cpp', 'optim', 'spqlios-fma', n=12) + J('c01.cpp', 'optim', 'fftw', n=2, args=['kinds=2']) + J('c01.cpp', 'debug', 'nayuki-portable', n=4, args=['kinds=3', 'zonly=1']) + J('c01.cpp', 'optim', 'spqlios-avx', n=4, args=['keysets=1'])
     jobs = []
     for be in BE:
         jobs += J('c01.cpp', 'optim', be, n=4, deadline=2400, timeout=3000)
         jobs += J('c01.cpp', 'debug', be, n=4, args=['K=1', 'kinds=3'], deadline=2400, timeout=3000)
+        jobs += J('c01.cpp', 'optim', be, n=4, args=['keysets=1'])
+    jobs += J('c01.cpp', 'debug', 'nayuki-portable', n=4, args=['keysets=1'], deadline=2400, timeout=3000)
     return jobs
 PROPS['C01'] = dict(
     technique='exhaustive enumeration of gate x truth row x input-kind tuple (fresh, trivial, bootstrapped, adversarial at the admissible limit, rounded-phase-0) x parameter-set history on the real library; truth-table and exact rounded-phase oracle',
     level='exploration',
     rule='cases = (parameter set, key seed, gate, truth row, input kind per wire) on one library variant per job; kinds: F fresh, P+/P- fresh with the true phase moved to +-1/8 +- (1/32 - 2^-20), T trivial, B output of a bootstrapped gate. '
          'oracle: bootsSymDecrypt == truth table; harness-side exact rounded phase p of the internal combination in the right half circle; output error < 1/32. non-trivial = bootstrapping gate with at least one non-trivial input',
-    bounds={'quick': '14 gates x all rows x kinds {F,P+,P-}^arity x {80,128}-bit x 1 key seed on optim/spqlios-fma (+ {F,P+} on optim/fftw, + the rounded-phase-0 cases on debug/nayuki-portable)', 'thorough': 'all 5 kinds^arity x 2 key seeds x 5 back-ends (optim); kinds {F,P+,P-} x 1 seed x 5 back-ends (debug)'},
+    bounds={'quick': '14 gates x all rows x kinds {F,P+,P-}^arity x {80,128}-bit x 1 key seed on optim/spqlios-fma (+ {F,P+} on optim/fftw, + the rounded-phase-0 cases on debug/nayuki-portable); key-set histories (two key sets from one parameter object alive together, delete + re-generate, ciphertext arrays) x {80,128}-bit on optim/spqlios-avx', 'thorough': 'all 5 kinds^arity x 2 key seeds x 5 back-ends (optim); kinds {F,P+,P-} x 1 seed x 5 back-ends (debug); key-set histories on 5 back-ends (optim) + debug/nayuki-portable'},
     assumptions=['every case is deterministic given (VERIF_SEED, case key); a correct tree fails a case with probability < 1e-50 (margin >= 17 sigma at the adversarial limit)'],
     jobs=_c01,
 )
